@@ -218,6 +218,34 @@ fn p384_recovered_keys_pass(acc: &mut Acc) {
     }
 }
 
+/// Ed25519 key material whose two halves do not belong together (seed of pair A, public half of pair B).
+/// Refusing to sign is fine; if a token is produced, the only key that may verify it is the public half the
+/// key material carries (B) - in particular not A's.
+fn mismatched_halves_pass(acc: &mut Acc) {
+    for p in [Proto::V2P, Proto::V4P] {
+        let pool = domains::key_pool(p);
+        let (a, b) = (&pool[2], &pool[5]);
+        let mut sk = a.sk[..32].to_vec();
+        sk.extend_from_slice(&b.pk);
+        let franken = KeyMat { label: "seed-of-A+public-half-of-B".into(), sk, pk: b.pk.clone(), secret_for_ref: String::new() };
+        for layer in Layer::ALL {
+            let case = IssueCase::new(p, layer, &franken, None, "{\"data\":\"x\"}", &None, &None);
+            acc.executions += 1;
+            let Out::Ok(token) = case.issue() else {
+                acc.bump("mismatched-halves:signing-refused");
+                continue;
+            };
+            acc.bump("mismatched-halves:token-produced");
+            CONTROL_OK.with(|c| c.set(true));
+            for other in pool.iter().filter(|k| k.pk != b.pk) {
+                let mut pres = Presentation::of(&case, &token);
+                pres.pk_hex = b64::hex(&other.pk);
+                check("C04", "token-from-mismatched-key-halves-under-another-key", &case, &token, &pres, None, acc);
+            }
+        }
+    }
+}
+
 pub fn run_c04(tier: &str) -> i32 {
     let run = Run::new("C04", tier);
     let quick = tier == "quick";
@@ -291,6 +319,7 @@ pub fn run_c04(tier: &str) -> i32 {
     merged.merge(reuse_pass("C04", &Proto::ALL));
     let mut racc = Acc::default();
     p384_recovered_keys_pass(&mut racc);
+    mismatched_halves_pass(&mut racc);
     merged.merge(racc);
     finish(
         run,
